@@ -27,9 +27,78 @@ func chanRecvReady(v reflect.Value) (ready bool, closed bool) {
 
 func chanSendReady(v reflect.Value) bool {
 	if v.Cap() == 0 {
-		panic("INSTRUMENTATION-UNSUPPORTED: send on an unbuffered channel is not modelled")
+		panic("INSTRUMENTATION-UNSUPPORTED: send on an unbuffered channel that was not created by instrumented code")
+	}
+	if u := unbufOf(v); u != nil {
+		// rendezvous: a send can complete only while a receiver is waiting for this channel
+		return v.Len() == 0 && len(u.waiting) > 0
 	}
 	return v.Len() < v.Cap()
+}
+
+// ---- unbuffered channels ----
+//
+// `make(chan T)` in instrumented code becomes a channel with room for one value that is registered here as
+// logically unbuffered. The rendezvous is modelled as one step of the sender: it is enabled only while some
+// receiver is parked on the channel (in a receive or in a select with a receive case); when chosen it commits
+// that receiver to this channel (a select then has to take that case) and deposits the value, so neither of
+// the two real goroutines ever blocks in the real channel operation.
+
+type unbufState struct {
+	waiting []*recvWaiter
+}
+
+type recvWaiter struct {
+	forced bool
+}
+
+// Unbuffered registers ch (created with capacity 1 by the rewritten make) as logically unbuffered.
+func Unbuffered(ch interface{}) interface{} {
+	if X != nil {
+		if X.unbuf == nil {
+			X.unbuf = map[uintptr]*unbufState{}
+		}
+		X.unbuf[reflect.ValueOf(ch).Pointer()] = &unbufState{}
+	}
+	return ch
+}
+
+func unbufOf(v reflect.Value) *unbufState {
+	if X == nil || X.unbuf == nil {
+		return nil
+	}
+	return X.unbuf[v.Pointer()]
+}
+
+func (u *unbufState) add() *recvWaiter {
+	w := &recvWaiter{}
+	u.waiting = append(u.waiting, w)
+	return w
+}
+
+func (u *unbufState) remove(w *recvWaiter) {
+	for i, x := range u.waiting {
+		if x == w {
+			u.waiting = append(u.waiting[:i], u.waiting[i+1:]...)
+			return
+		}
+	}
+}
+
+// commit is called by a sender that has been chosen: the first waiting receiver will take this value.
+func (u *unbufState) commit() {
+	w := u.waiting[0]
+	u.waiting = u.waiting[1:]
+	w.forced = true
+}
+
+// ChanClose is called immediately before close(ch).
+func ChanClose(ch interface{}) {
+	if X == nil {
+		return
+	}
+	Yield("close", "chan", always)
+	Release(CtxHB)
 }
 
 // ChanRecv is called immediately before a blocking receive `<-ch`.
@@ -43,7 +112,15 @@ func ChanRecv(ch interface{}) {
 		return
 	}
 	closed := false
+	var w *recvWaiter
+	u := unbufOf(v)
+	if u != nil {
+		w = u.add()
+	}
 	Yield("recv", "chan", func() bool { r, c := chanRecvReady(v); closed = c; return r })
+	if u != nil {
+		u.remove(w)
+	}
 	if closed {
 		Acquire(CtxHB)
 	} else {
@@ -62,6 +139,9 @@ func ChanSend(ch interface{}) {
 		return
 	}
 	Yield("send", "chan", func() bool { return chanSendReady(v) })
+	if u := unbufOf(v); u != nil {
+		u.commit()
+	}
 	Release(chanKey(v))
 }
 
@@ -93,6 +173,22 @@ func Select(hasDefault bool, cases ...SelCase) int {
 	if X == nil {
 		panic("vsched.Select outside of a controlled execution")
 	}
+	// receive cases on unbuffered channels announce a waiting receiver for the time this select is parked
+	waiters := make([]*recvWaiter, len(cases))
+	for i, c := range cases {
+		if !c.send && c.v.IsValid() && !c.v.IsNil() {
+			if u := unbufOf(c.v); u != nil {
+				waiters[i] = u.add()
+			}
+		}
+	}
+	defer func() {
+		for i, w := range waiters {
+			if w != nil {
+				unbufOf(cases[i].v).remove(w)
+			}
+		}
+	}()
 	anyReady := func() bool {
 		if hasDefault {
 			return true
@@ -120,12 +216,23 @@ func Select(hasDefault bool, cases ...SelCase) int {
 		panic("vsched.Select: chosen while no case is ready")
 	}
 	k := 0
-	if len(ready) > 1 {
+	forced := -1
+	for j, i := range ready {
+		if waiters[i] != nil && waiters[i].forced {
+			forced = j // a sender has handed its value to this select: the rendezvous is already decided
+		}
+	}
+	if forced >= 0 {
+		k = forced
+	} else if len(ready) > 1 {
 		k = Choose(len(ready), 0, fmt.Sprintf("select-ready%v", ready))
 	}
 	i := ready[k]
 	c := cases[i]
 	if c.send {
+		if u := unbufOf(c.v); u != nil {
+			u.commit()
+		}
 		Release(chanKey(c.v))
 	} else if closed[k] {
 		Acquire(CtxHB)
